@@ -1,5 +1,6 @@
 import Hive.Model.TypedStore
 import Hive.Model.TypedConc
+import Hive.Model.TypedLin
 import Hive.Model.TypedRef
 import Hive.Model.TypedCode
 import Hive.Gen.C06_Code
@@ -16,6 +17,7 @@ structure DState where
   ts : Store
   tp : RState
   wrapped : Bool := false    -- `tv store wrapped|fmt`: the harness's store reports its errors wrapped
+  varKeys : Bool := false    -- `ts keys var`: the TypedStore's key codec is the variable-length `codecVar`
 
 def dinit : DState := { tv := fresh none, ts := [], tp := rinit }
 
@@ -45,9 +47,12 @@ def dstepLine (s : DState) (toks : List String) : DState × String :=
   | [_, "codec", _] => (s, "ok")   -- codec flavour of the harness (allocating / scratch buffers): no semantic content
   | ["tv", "store", fl] => ({ s with wrapped := fl != "plain" }, "ok")
   | [_, "store", _] => (s, "ok")
+  | ["ts", "keys", fl] => ({ s with varKeys := fl == "var" }, "ok")
   | "tv" :: rest => let (tv', o) := stepLineBoth s.wrapped s.tv rest; ({ s with tv := tv' }, o)
   | "tp" :: rest => let (tp', o) := rstepLine s.tp rest; ({ s with tp := tp' }, o)
-  | "ts" :: rest => let (ts', o) := sstepLine s.ts rest; ({ s with ts := ts' }, o)
+  | "ts" :: rest =>
+    let (ts', o) := sstepLineK (if s.varKeys then codecVar else codec16) s.ts rest
+    ({ s with ts := ts' }, o)
   | ["conc", "counter", final, incs, gets] =>
     match final.toNat?, parseCsv incs, parseCsv gets with
     | some f, some i, some g => (s, Conc.counterWhy i f g)
@@ -67,6 +72,15 @@ def dstepLine (s : DState) (toks : List String) : DState × String :=
           else if !Conc.quiescentOk [qg, qh] [f, if f = 0 then 0 else 1] then "reject cache-differs-from-store-at-quiescence"
           else "accept")
     | _, _, _, _, _, _, _ => (s, "bad-op")
+  | ["conc", "lin", init, final, kinds, ws, ss, invs, rets, qget, qhas] =>
+    match init.toNat?, final.toNat?, parseCsv kinds, parseCsv ws, parseCsv ss, parseCsv invs, parseCsv rets, qget.toNat?, qhas.toNat? with
+    | some i, some f, some k, some w, some sn, some iv, some rt, some qg, some qh =>
+      (s, if !(k.length == w.length && w.length == sn.length && sn.length == iv.length && iv.length == rt.length &&
+               Conc.linOk i (Conc.zipL k w sn iv rt) f) then
+            "reject no-real-time-respecting-serial-order-explains-the-history"
+          else if !Conc.quiescentOk [qg, qh] [f, if f = 0 then 0 else 1] then "reject cache-differs-from-store-at-quiescence"
+          else "accept")
+    | _, _, _, _, _, _, _, _, _ => (s, "bad-op")
   | ["conc", "wide", n, gets] =>
     match n.toNat?, parseCsv gets with
     | some n, some g => (s, if Conc.wideOk n g then "accept" else "reject reader-saw-unwritten-value")
